@@ -48,3 +48,10 @@ check(
     "Trusts xarray's isel for extraction; hmax excluded as the statement says; fit_jonswap/fit_gaussian are covered by the dask/independence facets only for unimodal spectra.",
     "DESIGN.md section 5 C06",
 )
+check(
+    "C07",
+    "differential: Hypothesis draws (dataset, chunking of every dimension incl. freq/dir, scheduler, operations) and compares the computed dask result with the in-memory result; mixed-shape partition graphs computed together under the threaded scheduler",
+    "Hundreds (quick) / tens of thousands (thorough) of (chunking, scheduler, operation) combinations over the whole catalogue plus stats / scale_by_hs / fit_jonswap / ptm1_track, and batches of 2-5 partition graphs of different spectral shapes under 2/4/16 worker threads. The chunking and scheduler quantifiers are swept; thread interleavings are sampled (see level_note).",
+    "The harness does not own dask's scheduler: interleavings are sampled at task granularity (the C entry point holds the GIL). A data race inside one C call would need a schedule-owning tool; releasing the GIL in the wrapper is nevertheless caught by the mixed-shape batches (crash / differing result).",
+    "DESIGN.md section 5 C07",
+)
